@@ -1,15 +1,22 @@
 #!/usr/bin/env python3
 """c2gallina.py — translator for the pure integer leaf functions of discopt/cmr.
 
-regenerate() dumps the clang AST (JSON) of the listed `static inline` functions from /repo's *current* headers and
-writes coq/LeafGen.v: one Gallina function per C function, in the option monad of coq/LeafSem.v (every arithmetic
+regenerate() dumps the clang AST (JSON) of the listed `static inline` functions from /repo's *current* headers (and of
+listed static functions of a C file: an entry whose "header" ends in .c) and writes coq/LeafGen.v: one Gallina function per C function, in the option monad of coq/LeafSem.v (every arithmetic
 operation checks the range of its C type; None = undefined behaviour).  LeafProofs.v proves the specifications of these
 generated definitions, so a change of the C text changes the definitions the theorems are about.
 
-Supported C subset: parameters and locals of type int / long long / size_t / bool / CMR_ELEMENT, if / else, return,
-declarations with initialiser, assignment and compound assignment statements, + - * / % unary - ! comparisons && || ?:,
-integer literals, casts, parentheses; `assert` disappears with -DNDEBUG.  Anything else makes regenerate() fail (and
-with it every check that depends on the generated file).
+Supported C subset: parameters and locals of type int / long long / int64_t / size_t / bool / CMR_ELEMENT, if / else,
+return, declarations with initialiser, assignment and compound assignment statements, + - * / % unary - ! comparisons
+&& || ?:, integer literals, casts, parentheses; `assert` disappears with -DNDEBUG.
+  while (cond) { body }  becomes a `Fixpoint c_<fn>_loop<k> (fuel : nat) (<every variable in scope> : Z)` returning the
+    tuple of those variables when the condition fails and None when the fuel runs out; the function then takes `fuel`
+    as an extra first argument.  Variables declared in the body live for one iteration.  No return / break / continue /
+    nested loop / write through a pointer inside a loop.
+  out-parameters `int64_t* p`: `*p = e;` binds o_p; they are not arguments of the Gallina function, which returns
+    (return value, *p1, .., *pn) in parameter order.  Every out-parameter must have been written on every path to a
+    return; the pointers cannot be used in any other way.
+Anything else makes regenerate() fail (and with it every check that depends on the generated file).
 """
 import os, json, subprocess, re
 
@@ -22,10 +29,12 @@ FUNCS = [("linear_algebra_internal.h", "moduloNonnegative"), ("linear_algebra_in
          ("hashtable.h", "projectSignedHash"),
          ("cmr/element.h", "CMRelementIsValid"), ("cmr/element.h", "CMRrowToElement"), ("cmr/element.h", "CMRcolumnToElement"),
          ("cmr/element.h", "CMRelementIsRow"), ("cmr/element.h", "CMRelementToRowIndex"), ("cmr/element.h", "CMRelementIsColumn"),
-         ("cmr/element.h", "CMRelementToColumnIndex"), ("cmr/element.h", "CMRelementTranspose")]
+         ("cmr/element.h", "CMRelementToColumnIndex"), ("cmr/element.h", "CMRelementTranspose"),
+         ("linear_algebra.c", "gcdExt")]
 
 TYPES = {"int": "I32", "long long": "I64", "long": "I64", "unsigned long": "U64", "size_t": "U64", "bool": "CB", "_Bool": "CB",
-         "unsigned long long": "U64"}
+         "unsigned long long": "U64", "int64_t": "I64"}
+OUT_POINTERS = ("int64_t *", "long *", "long long *")
 
 
 class Unsupported(Exception):
@@ -45,6 +54,33 @@ def ident(name):
     return "v_" + name
 
 
+def oident(name):
+    return "o_" + name
+
+
+class Fn:
+    """per-function state: name, out-pointer parameters (in order), return type, the loop fixpoints emitted so far"""
+    def __init__(self, name, outs, rty):
+        self.name, self.outs, self.rty, self.loops = name, outs, rty, []
+
+
+class Cx:
+    """per-path state: the variables in scope (in declaration order), the out-parameters written so far, inside a loop?"""
+    def __init__(self, fn, scope, assigned=frozenset(), loop=False):
+        self.fn, self.scope, self.assigned, self.loop = fn, tuple(scope), assigned, loop
+
+    def declare(self, name):
+        if name in self.scope or name in self.fn.outs:
+            raise Unsupported("declaration of %s shadows a variable in scope" % name)
+        return Cx(self.fn, self.scope + (name,), self.assigned, self.loop)
+
+    def assign_out(self, name):
+        return Cx(self.fn, self.scope, self.assigned | {name}, self.loop)
+
+    def enter_loop(self):
+        return Cx(self.fn, self.scope, self.assigned, True)
+
+
 def expr(n):
     """Gallina term of type option Z"""
     k = n["kind"]
@@ -52,6 +88,7 @@ def expr(n):
     if k == "IntegerLiteral":
         return "(Some (%s))" % n["value"]
     if k == "DeclRefExpr":
+        cty(n)  # only variables of a supported integer type (in particular: no pointer)
         return "(Some %s)" % ident(n["referencedDecl"]["name"])
     if k in ("ParenExpr", "ConstantExpr"):
         return expr(inner[0])
@@ -102,7 +139,58 @@ def is_noop(n):
     return k == "NullStmt"
 
 
-def stmts(lst, rest):
+def out_target(lhs, cx):
+    """name of the out-parameter p if lhs is `*p`, else None"""
+    if lhs["kind"] != "UnaryOperator" or lhs.get("opcode") != "*":
+        return None
+    e = lhs["inner"][0]
+    while e["kind"] in ("ParenExpr",) or (e["kind"] == "ImplicitCastExpr" and e.get("castKind") == "LValueToRValue"):
+        e = e["inner"][0]
+    if e["kind"] == "DeclRefExpr" and e["referencedDecl"]["kind"] == "ParmVarDecl" and e["referencedDecl"]["name"] in cx.fn.outs:
+        return e["referencedDecl"]["name"]
+    return None
+
+
+def target(lhs, cx):
+    if lhs["kind"] != "DeclRefExpr":
+        raise Unsupported("assignment to a non-variable")
+    name = lhs["referencedDecl"]["name"]
+    if name not in cx.scope:
+        raise Unsupported("assignment to %s, which is not a local variable or parameter in scope" % name)
+    cty(lhs)
+    return ident(name)
+
+
+def ret(e, cx):
+    if cx.loop:
+        raise Unsupported("return inside a loop")
+    if not cx.fn.outs:
+        return expr(e)
+    missing = [o for o in cx.fn.outs if o not in cx.assigned]
+    if missing:
+        raise Unsupported("return reached while *%s has not been written" % missing[0])
+    return "(x <-- %s ;; r <-- c_cast %s x ;;\n  Some (%s))" % (expr(e), cx.fn.rty, ", ".join(["r"] + [oident(o) for o in cx.fn.outs]))
+
+
+def loop(cond, body, cx):
+    """emit the fixpoint of `while (cond) body` in the scope of cx; returns (its name, the variables it carries)"""
+    if cx.loop:
+        raise Unsupported("nested loop")
+    if not cx.scope:
+        raise Unsupported("loop without variables")
+    fn = cx.fn
+    name = "c_%s_loop%d" % (fn.name, len(fn.loops) + 1)
+    vs = [ident(v) for v in cx.scope]
+    again = "(%s fuel %s)" % (name, " ".join(vs))
+    term = stmts([body], again, cx.enter_loop())
+    fn.loops.append(None)  # reserve the number
+    fn.loops[-1] = ("Fixpoint %s (fuel : nat) (%s : Z) {struct fuel} : option (%s) :=\n  match fuel with\n  | O => None\n  | S fuel =>\n"
+                    "  (c <-- %s ;;\n  if c_true c then %s\n  else Some (%s))\n  end.\n"
+                    % (name, " ".join(vs), " * ".join("Z" for _ in vs), expr(cond), term, ", ".join(vs)))
+    return name, vs
+
+
+def stmts(lst, rest, cx):
     """translate a statement list followed by the continuation `rest` (a Gallina term or None = falls off the end)"""
     if not lst:
         if rest is None:
@@ -112,39 +200,54 @@ def stmts(lst, rest):
     k = s["kind"]
     inner = s.get("inner", [])
     if k == "CompoundStmt":
-        return stmts(inner + tail, rest)
+        return stmts(inner + tail, rest, cx)
     if k == "ReturnStmt":
-        return expr(inner[0])
+        if not inner:
+            raise Unsupported("return without a value")
+        return ret(inner[0], cx)
     if k == "DeclStmt":
         out = None
         decls = inner
-        body = stmts(tail, rest)
-        for d in reversed(decls):
+        cxs = [cx]
+        for d in decls:
             if d["kind"] != "VarDecl" or not d.get("inner"):
                 raise Unsupported("declaration without initialiser")
+            cxs.append(cxs[-1].declare(d["name"]))
+        body = stmts(tail, rest, cxs[-1])
+        for d in reversed(decls):
             body = "(%s <-- (x <-- %s ;; c_cast %s x) ;;\n  %s)" % (ident(d["name"]), expr(d["inner"][0]), cty(d), body)
         return body
     if k == "IfStmt":
+        if len(inner) not in (2, 3):
+            raise Unsupported("if statement with %d children" % len(inner))
         cond = expr(inner[0])
-        then = stmts([inner[1]] + tail, rest)
-        els = stmts(([inner[2]] if len(inner) > 2 else []) + tail, rest)
+        then = stmts([inner[1]] + tail, rest, cx)
+        els = stmts(([inner[2]] if len(inner) > 2 else []) + tail, rest, cx)
         return "(c <-- %s ;;\n  if c_true c then %s\n  else %s)" % (cond, then, els)
+    if k == "WhileStmt":
+        if len(inner) != 2:
+            raise Unsupported("while statement with %d children" % len(inner))
+        name, vs = loop(inner[0], inner[1], cx)
+        return "(st <-- %s fuel %s ;;\n  let '(%s) := st in\n  %s)" % (name, " ".join(vs), ", ".join(vs), stmts(tail, rest, cx))
     if k == "BinaryOperator" and s["opcode"] == "=":
         lhs = inner[0]
-        if lhs["kind"] != "DeclRefExpr":
-            raise Unsupported("assignment to a non-variable")
-        return "(%s <-- %s ;;\n  %s)" % (ident(lhs["referencedDecl"]["name"]), expr(inner[1]), stmts(tail, rest))
+        o = out_target(lhs, cx)
+        if o is not None:
+            if cx.loop:
+                raise Unsupported("write through a pointer inside a loop")
+            if cty(lhs) != "I64":
+                raise Unsupported("out-parameter of type " + cty(lhs))
+            return "(%s <-- %s ;;\n  %s)" % (oident(o), expr(inner[1]), stmts(tail, rest, cx.assign_out(o)))
+        return "(%s <-- %s ;;\n  %s)" % (target(lhs, cx), expr(inner[1]), stmts(tail, rest, cx))
     if k == "CompoundAssignOperator":
         lhs = inner[0]
-        if lhs["kind"] != "DeclRefExpr":
-            raise Unsupported("assignment to a non-variable")
         op = {"+=": "c_add", "-=": "c_sub", "*=": "c_mul", "/=": "c_div", "%=": "c_rem"}.get(s["opcode"])
         if not op:
             raise Unsupported("compound " + s["opcode"])
-        v = ident(lhs["referencedDecl"]["name"])
-        return "(%s <-- (y <-- %s ;; %s %s %s y) ;;\n  %s)" % (v, expr(inner[1]), op, cty(s), v, stmts(tail, rest))
+        v = target(lhs, cx)
+        return "(%s <-- (y <-- %s ;; %s %s %s y) ;;\n  %s)" % (v, expr(inner[1]), op, cty(s), v, stmts(tail, rest, cx))
     if is_noop(s):
-        return stmts(tail, rest)
+        return stmts(tail, rest, cx)
     raise Unsupported("statement " + k)
 
 
@@ -157,14 +260,26 @@ def function(fd):
     rty = {"CMR_ELEMENT": "int"}.get(rty, rty)
     if rty not in TYPES:
         raise Unsupported("return type " + rty)
-    args = " ".join("(%s : Z)" % ident(p["name"]) for p in params)
-    sig = ", ".join("%s : %s" % (p["name"], cty(p)) for p in params)
-    term = stmts(body[0].get("inner", []), None)
-    return ("(* %s(%s) : %s *)\nDefinition c_%s %s : option Z :=\n  r <-- %s ;;\n  c_cast %s r.\n"
-            % (fd["name"], sig, TYPES[rty], fd["name"], args, term, TYPES[rty]))
+    outs = [p for p in params if p["type"]["qualType"] in OUT_POINTERS]
+    ins = [p for p in params if p not in outs]
+    if len(set(p.get("name") for p in params)) != len(params) or not all(p.get("name") for p in params):
+        raise Unsupported("unnamed or repeated parameter")
+    fn = Fn(fd["name"], [p["name"] for p in outs], TYPES[rty])
+    args = " ".join("(%s : Z)" % ident(p["name"]) for p in ins)
+    sig = ", ".join("out %s" % p["name"] if p in outs else "%s : %s" % (p["name"], cty(p)) for p in params)
+    term = stmts(body[0].get("inner", []), None, Cx(fn, [p["name"] for p in ins]))
+    fuel = "(fuel : nat) " if fn.loops else ""
+    if outs:
+        return ("%s(* %s(%s) : %s; the value is (result%s) *)\nDefinition c_%s %s%s : option (%s) :=\n  %s.\n"
+                % ("".join(l + "\n" for l in fn.loops), fd["name"], sig, TYPES[rty], "".join(", *" + o for o in fn.outs),
+                   fd["name"], fuel, args, " * ".join("Z" for _ in [0] + outs), term))
+    return ("%s(* %s(%s) : %s *)\nDefinition c_%s %s%s : option Z :=\n  r <-- %s ;;\n  c_cast %s r.\n"
+            % ("".join(l + "\n" for l in fn.loops), fd["name"], sig, TYPES[rty], fd["name"], fuel, args, term, TYPES[rty]))
 
 
 def ast_of(header, name, incs):
+    if header.endswith(".c"):  # a static function of a C file: the translation unit is that file
+        header = os.path.join(REPO, "src", "cmr", header)
     src = "#include <limits.h>\n#include <stdbool.h>\n#include <stddef.h>\n#include \"%s\"\n" % header
     cmd = ["clang", "-std=gnu99", "-DNDEBUG", "-DDISCOPT_CMR_VERIF", "-x", "c", "-fsyntax-only", "-Xclang", "-ast-dump=json",
            "-Xclang", "-ast-dump-filter=" + name] + ["-I" + i for i in incs] + ["-"]
@@ -195,7 +310,7 @@ def regenerate():
     try:
         incs = [os.path.join(REPO, "include"), os.path.join(REPO, "src", "cmr"), config_inc()]
         parts = ["(* LeafGen.v — GENERATED by tools/c2gallina.py from the current text of /repo (include/cmr/element.h,\n"
-                 "   src/cmr/linear_algebra_internal.h, src/cmr/hashtable.h); do not edit.  Semantics: LeafSem.v. *)\n"
+                 "   src/cmr/linear_algebra_internal.h, src/cmr/hashtable.h, src/cmr/linear_algebra.c); do not edit.  Semantics: LeafSem.v. *)\n"
                  "From Coq Require Import ZArith Bool.\nFrom Cmr Require Import LeafSem.\nLocal Open Scope Z_scope.\n"]
         for header, name in FUNCS:
             parts.append(function(ast_of(header, name, incs)))
